@@ -200,6 +200,61 @@ def check_sender_plain_writes(chk, cfg, mods):
                    "sender-side function: every store it makes to the descriptor is atomic", fn.loc, fn.name)
 
 
+def check_mq_post_handoff(chk, cfg, mods):
+    """R3.no-access-after-handoff: inside the queue's own functions the message buffer changes owner at one atomic operation - the
+    receiver's release-add on num_free gives it to the next claimer, the sender's release-or on full_flags gives it to the receiver.
+    After that operation the function no longer owns the buffer: any later plain access to it (a scrub, a trailing copy, a debug
+    read) conflicts with the new owner's accesses and nothing orders the two."""
+    n = 0
+    for m, fn, acc in mq.mq_functions(mods, check=False):
+        rs = mq.roles(fn, acc)
+        if "init" in rs or not (rs & {"release", "send"}):
+            continue
+        for p in paths.enumerate_paths(fn, m, loop_bound=1):
+            if paths.is_assert_fail_path(p):
+                continue
+            hand = None
+            for k, e in enumerate(p.events):
+                if e.kind == "rmw" and e.ptr is not None and ptr_parts(e.ptr)[0] == ("arg", 0):
+                    f = flow_field(e.ptr, fn, m)
+                    if ("release" in rs and f == "num_free" and e.extra == "add") or ("send" in rs and f == "full_flags" and e.extra == "or"):
+                        hand = k
+                        break
+            if hand is None:
+                continue
+            n += 1
+            late = []
+            for e in p.events[hand + 1:]:
+                if e.kind not in ("load", "store", "memset", "memcpy", "memmove") or e.ptr is None:
+                    continue
+                roots = [ptr_parts(e.ptr)[0]]
+                if e.kind in ("memcpy", "memmove") and e.val is not None and isinstance(e.val, tuple):
+                    try:
+                        roots.append(ptr_parts(e.val)[0])
+                    except Exception:
+                        pass
+                for r in roots:
+                    if r == ("arg", 0) or r[0] in ("alloca", "g", "c"):
+                        continue
+                    late.append(e)
+                    break
+            pid = "%s[%s] path %s" % (fn.name, cfg, "->".join(b.lstrip("%") for b in p.blocks))[:200]
+            chk.ob("R3.no-access-after-handoff", pid, not late,
+                   "no access to the message buffer follows the atomic operation that hands it over" if not late else
+                   "%s of the message buffer at %s follows the %s at %s that hands the buffer to its next owner: from there on the %s may "
+                   "be using it, and nothing orders this access with theirs" %
+                   (late[0].kind, late[0].inst.loc, "release-add on num_free" if "release" in rs else "release-or on full_flags",
+                    p.events[hand].inst.loc, "next claimer" if "release" in rs else "receiver"), late[0].inst.loc if late else p.events[hand].inst.loc, fn.name)
+    chk.expect("R3", "hand-over paths of messageq_release / messageq_send [%s]" % cfg, n, 2)
+
+
+def flow_field(ptr, fn, m):
+    try:
+        return paths.field_of(ptr, fn, m)[1]
+    except Exception:
+        return None
+
+
 def check_r3_slots(chk, cfg, mods):
     """Users of claim/send and receive/release inside the library: slot written before send, read before release."""
     n = 0
@@ -421,6 +476,7 @@ def run(chk):
         check_r1(chk, cfg, progs[cfg], table)
         check_r2_mq(chk, cfg, progs[cfg])
         check_r3_slots(chk, cfg, progs[cfg])
+        check_mq_post_handoff(chk, cfg, progs[cfg])
         # ring buffer hand-off: reuse C05's publication-order rules (R1.*) and single writer (R2.*)
         chk.rule_prefix = "ring."
         chk.rule_filter = lambda r: r.startswith(("R1", "R2", "R3.index-width"))
@@ -434,7 +490,7 @@ def run(chk):
         # handed out by compare-exchange (C04.R1, R4): a blind store between two senders' updates lets two of them write
         # the same payload bytes without ordering
         chk.rule_prefix = "mq."
-        chk.rule_filter = lambda r: r.startswith(("R6", "R1", "R4"))
+        chk.rule_filter = lambda r: r.startswith(("R6", "R1", "R4", "R2.reservation"))
         C04.run_config(chk, cfg)
         chk.rule_prefix = ""
         chk.rule_filter = None
